@@ -4,6 +4,9 @@ import math
 
 from core import Mismatch, Prop
 
+import re
+
+DATE_FORM = re.compile(r'^[0-9]{4}(-[0-9]{1,2}(-[0-9]{1,2})?)?([ T].*)?$', re.S)
 WIDTHS = ['byte', 'short', 'int', 'long']
 BITS = {'byte': 8, 'short': 16, 'int': 32, 'long': 64}
 TYPES = ['null', 'string', 'boolean', 'byte', 'short', 'int', 'long', 'float', 'double', 'date', 'timestamp']
@@ -248,6 +251,10 @@ class C18(Prop):
                 if isinstance(impl, datetime.date):
                     impl = [impl.year, impl.month, impl.day]
                 r = ask({'p': 'C18', 'op': 'str2date', 's': it})['model']
+                if not DATE_FORM.match(it):
+                    # the property speaks about yyyy[-m[-d]][( |T)time] only; other strings are not compared
+                    ctx.note('str2date:out-of-form')
+                    continue
                 ctx.note('str2date:' + ('null' if r is None else 'date'))
                 if impl != r:
                     return Mismatch('cast string %r to date' % (it,), impl, r, 'str2date')
